@@ -319,17 +319,20 @@ def run_case(case: dict) -> dict:
     mod = None
     step = -1
     import signal
-    old = signal.signal(signal.SIGALRM, _on_alarm)
-    signal.setitimer(signal.ITIMER_REAL, CASE_TIMEOUT_S, 0.5)   # repeating: library code that swallows one raise cannot stop it
+    # the budget is CPU time of this process (ITIMER_PROF), not wall-clock time: on a loaded machine a trivial case can be
+    # descheduled for longer than any wall-clock budget (observed: a false CaseTimeout for `x: Optional[int] = None` at load 130),
+    # while the runs this alarm is for (unbounded / exponential recursion in the library) burn CPU
+    old = signal.signal(signal.SIGPROF, _on_alarm)
+    signal.setitimer(signal.ITIMER_PROF, CASE_TIMEOUT_S, 0.5)   # repeating: library code that swallows one raise cannot stop it
     try:
         return _run_case(case, params, stats)
     except CaseTimeout:
-        signal.setitimer(signal.ITIMER_REAL, 0)
-        return {"ok": False, "clause": "total", "what": f"schema generation did not finish within {CASE_TIMEOUT_S}s", "step": case.get("_step", 0),
+        signal.setitimer(signal.ITIMER_PROF, 0)
+        return {"ok": False, "clause": "total", "what": f"schema generation did not finish within {CASE_TIMEOUT_S}s of CPU time", "step": case.get("_step", 0),
                 "exc": "CaseTimeout", "msg": ""}
     finally:
-        signal.setitimer(signal.ITIMER_REAL, 0)
-        signal.signal(signal.SIGALRM, old)
+        signal.setitimer(signal.ITIMER_PROF, 0)
+        signal.signal(signal.SIGPROF, old)
 
 
 def _run_case(case: dict, params: dict, stats: dict) -> dict:
